@@ -44,6 +44,7 @@ HARNESSES = {
         H("c19_distance_range_upper", "lib", "C19.K.distance.range_upper", bounded="as above"),
         H("c19_distance_range_residual", "lib", "C19.K.distance.range_residual", bounded="one infoset of 2 actions; entries on the grid {0, 1/4, 1/2, 3/4, 1}; p in {1, 2}"),
         H("c19_distance_panics_other_game", "lib", "C19.K.distance.panics", bounded="as above"),
+        H("c19_distance_panics_other_game_empty", "lib", "C19.K.distance.panics", bounded="two games in which player one has no multi-action infoset"),
         H("c19_distance_panics_nonpositive_p", "lib", "C19.K.distance.panics", bounded="as above; p any f64 with !(p > 0)"),
     ],
     "C02": [
